@@ -981,23 +981,35 @@ func (ex *Exec) valEq(a, b Value) *Term {
 	p := ex.pool
 	switch x := a.(type) {
 	case *Term:
-		y := b.(*Term)
+		y, ok := b.(*Term)
+		if !ok {
+			return p.Bool(false)
+		}
 		if x.w == FW {
 			return p.FCmp("fp.eq", x, y)
 		}
 		return p.Bin("=", x, y)
 	case *StringV:
-		y := b.(*StringV)
+		y, ok := b.(*StringV)
+		if !ok {
+			return p.Bool(false) // differently represented dynamic values (e.g. a runtime error vs an error pointer)
+		}
 		return ex.termsEq(x.b, y.b)
 	case *StructV:
-		y := b.(*StructV)
+		y, ok := b.(*StructV)
+		if !ok {
+			return p.Bool(false)
+		}
 		r := p.Bool(true)
 		for i := range x.f {
 			r = p.And(r, ex.valEq(x.f[i].v, y.f[i].v))
 		}
 		return r
 	case *ArrayV:
-		y := b.(*ArrayV)
+		y, ok := b.(*ArrayV)
+		if !ok {
+			return p.Bool(false)
+		}
 		r := p.Bool(true)
 		for i := range x.e {
 			r = p.And(r, ex.valEq(x.e[i].v, y.e[i].v))
@@ -1355,6 +1367,12 @@ func (ex *Exec) binop(op token.Token, a, b Value, t types.Type) Value {
 	if op == token.NEQ {
 		return p.Not(ex.valEq(a, b))
 	}
+	if c, isCell := a.(*Cell); isCell && op == token.XOR {
+		// the standard library's noescape idiom: unsafe.Pointer(uintptr(p) ^ 0)
+		if tb, ok := b.(*Term); ok && tb.isConst && tb.c == 0 {
+			return c
+		}
+	}
 	panic(pathAbort{why: fmt.Sprintf("binop %s on %s,%s", op, describe(a), describe(b)), incomplete: true})
 }
 
@@ -1460,7 +1478,12 @@ func (ex *Exec) convert(v Value, from, to types.Type) Value {
 			if x.isConst {
 				return ex.strVal(string(rune(sext(x.c, x.w))))
 			}
-			panic(pathAbort{why: "string(symbolic rune)", incomplete: true})
+			// a symbolic code point below 0x80 is its own single byte; anything else is not modelled
+			x64 := ex.ext64(x, from)
+			if ex.branch(ex.pool.And(ex.pool.Bin("bvsle", ex.pool.BV(64, 0), x64), ex.pool.Bin("bvslt", x64, ex.pool.BV(64, 0x80)))) {
+				return &StringV{b: []*Term{ex.pool.Extract(x64, 7, 0)}}
+			}
+			panic(pathAbort{why: "string(symbolic rune >= 0x80)", incomplete: true})
 		}
 		fFloat, tFloat := fb.Info()&types.IsFloat != 0, tb.Info()&types.IsFloat != 0
 		switch {
